@@ -288,19 +288,24 @@ var c18s3Forms = []string{"flat", "nu", "nb", "deep", "root", "bu"}
 
 type c18s3Form struct {
 	name  string
-	at    int    // a restore of the state before the transaction is pending before this operation; -1: none
-	rkind string // snapshot | reader
+	at    int       // a restore of the state before the transaction is pending before this operation; -1: none
+	rkind string    // snapshot | reader
+	fail  c18s6Fail // the transaction fails part-way (c18_s6.go); trailing tokens "fail <kind> <k>"
 }
 
 func (f c18s3Form) String() string {
-	if f.name == "" || (f.name == "flat" && f.at < 0) {
+	if f.name == "" || (f.name == "flat" && f.at < 0 && f.fail.kind == "") {
 		return ""
 	}
 	rk := f.rkind
 	if rk == "" {
 		rk = "snapshot"
 	}
-	return fmt.Sprintf(" form %s at %d %s", f.name, f.at, rk)
+	s := fmt.Sprintf(" form %s at %d %s", f.name, f.at, rk)
+	if f.fail.kind != "" {
+		s += fmt.Sprintf(" fail %s %d", f.fail.kind, f.fail.k)
+	}
+	return s
 }
 
 // c18s3ParseForm: the trailing tokens of a W line ("form <name> at <k> <rkind>")
@@ -311,6 +316,10 @@ func c18s3ParseForm(f []string) c18s3Form {
 			form := c18s3Form{name: f[i+1], at: at, rkind: "snapshot"}
 			if i+4 < len(f) {
 				form.rkind = f[i+4]
+			}
+			if i+7 < len(f) && f[i+5] == "fail" {
+				form.fail.kind = f[i+6]
+				form.fail.k, _ = strconv.Atoi(f[i+7])
 			}
 			return form
 		}
@@ -485,19 +494,7 @@ func c18s3WaitPending(ignore map[string]bool, done <-chan struct{}) bool {
 // c18s3WriterTx: one writer transaction in the given form.  snap (the state before the transaction) is
 // needed when form.at >= 0.
 func (w *c18World) c18s3WriterTx(form c18s3Form, snap []byte, ops []c18Op, commit bool, version, count int64) error {
-	marker := func(ctx boltz.MutateContext) error {
-		b, err := ctx.Tx().CreateBucketIfNotExists([]byte("r"))
-		if err != nil {
-			return err
-		}
-		if err = b.Put([]byte("version"), []byte(strconv.FormatInt(version, 10))); err != nil {
-			return err
-		}
-		if err = b.Put([]byte("count"), []byte(strconv.FormatInt(count, 10))); err != nil {
-			return err
-		}
-		return c18s3PutInfo(ctx.Tx(), version)
-	}
+	marker := func(ctx boltz.MutateContext) error { return c18s6PutMarker(ctx.Tx(), version, count) }
 	var restoreDone chan struct{}
 	var restoreErr error
 	desc := func(i int) string {
@@ -506,7 +503,7 @@ func (w *c18World) c18s3WriterTx(form c18s3Form, snap []byte, ops []c18Op, commi
 			steps += c18s3FormLetter(form.name)
 		}
 		outer := "update"
-		if form.name == "bu" {
+		if form.name == "bu" || form.name == "cb" {
 			outer = "batch"
 		}
 		return fmt.Sprintf("D %s %s %d %s 0", outer, steps+c18s3FormLetter(form.name), form.at, form.rkind)
@@ -522,14 +519,27 @@ func (w *c18World) c18s3WriterTx(form c18s3Form, snap []byte, ops []c18Op, commi
 				c18s3WaitPending(w.stuckEarlier, restoreDone)
 			}
 			c18s3Beat(desc(i))
+			// a transaction that is to fail part-way (c18_s6.go): the caller's own error / a pre-commit action
+			if err := c18s6Step(ctx, form.fail, i); err != nil {
+				return err
+			}
 			o := o
 			if err := c18s3Joined(w.db, form.name, ctx, func(c boltz.MutateContext) error { return w.apply(c, o) }); err != nil {
 				return err
 			}
 		}
 		c18s3Beat(desc(len(ops)))
+		if err := c18s6Step(ctx, form.fail, len(ops)); err != nil {
+			return err
+		}
+		if form.fail.natural() {
+			return errC18s6Missed // one of the operations was to fail in the store
+		}
 		if err := c18s3Joined(w.db, form.name, ctx, marker); err != nil {
 			return err
+		}
+		if form.fail.kind == "precommit" {
+			return nil // the pre-commit action registered above fails after the last write
 		}
 		if !commit {
 			return errC18Rollback
@@ -537,7 +547,7 @@ func (w *c18World) c18s3WriterTx(form c18s3Form, snap []byte, ops []c18Op, commi
 		return nil
 	}
 	var err error
-	if form.name == "bu" {
+	if form.name == "bu" || form.name == "cb" {
 		err = w.db.Batch(nil, body)
 	} else {
 		err = w.db.Update(nil, body)
